@@ -1,4 +1,5 @@
 import Toodee.Spec.Cells
+import Toodee.Proofs.CellsLemmas
 /-
   C04 — Operations on a mutable view never touch cells outside it (general part).
 
@@ -14,8 +15,8 @@ variable {α : Type}
 /-- positions and coordinates of a view are in bijection -/
 theorem C04_coord (v : VW) (n : Nat) (h : v.Inv n) :
     (∀ c r, c < v.numCols → r < v.numRows → v.coord? (v.pos c r) = some (c, r) ∧ v.pos c r < n) ∧
-    (∀ p c r, v.coord? p = some (c, r) → p = v.pos c r ∧ c < v.numCols ∧ r < v.numRows) := by
-  sorry
+    (∀ p c r, v.coord? p = some (c, r) → p = v.pos c r ∧ c < v.numCols ∧ r < v.numRows) :=
+  ⟨fun _ _ hc hr => ⟨VW.coord?_pos h hc hr, VW.pos_lt h hc hr⟩, fun _ _ _ hp => VW.coord?_eq_some hp⟩
 
 /-- a cell permutation of the view: length kept, frame untouched, cell `(c,r)` receives old cell `g (c,r)` -/
 theorem C04_frame_perm (v : VW) (buf : List α) (h : v.Inv buf.length) (g : Nat × Nat → Nat × Nat)
@@ -24,30 +25,45 @@ theorem C04_frame_perm (v : VW) (buf : List α) (h : v.Inv buf.length) (g : Nat 
     (∀ p, v.coord? p = none → (gather buf (v.mapCells g))[p]? = buf[p]?) ∧
     (∀ c r, c < v.numCols → r < v.numRows →
       (gather buf (v.mapCells g))[v.pos c r]? = buf[v.pos (g (c, r)).1 (g (c, r)).2]?) := by
-  sorry
+  have hin : ∀ p, p < buf.length → v.mapCells g p < buf.length := fun _ hp => VW.mapCells_lt h g hg hp
+  refine ⟨gather_length buf _ hin, ?_, ?_⟩
+  · intro p hp
+    rw [gather_getElem? buf _ hin, VW.mapCells_of_none g hp]
+    by_cases hlt : p < buf.length
+    · rw [if_pos hlt]
+    · rw [if_neg hlt]; exact (List.getElem?_eq_none (Nat.not_lt.1 hlt)).symm
+  · intro c r hc hr
+    rw [gather_getElem?_lt buf _ hin (VW.pos_lt h hc hr), VW.mapCells_pos h g hc hr]
 
 /-- an overwrite of cells of the view: length kept, frame untouched, cell `(c,r)` becomes `h (c,r)` if that is `some` -/
 theorem C04_frame_upd (v : VW) (buf : List α) (h : v.Inv buf.length) (f : Nat × Nat → Option α) :
     (v.updCells buf f).length = buf.length ∧
     (∀ p, v.coord? p = none → (v.updCells buf f)[p]? = buf[p]?) ∧
     (∀ c r, c < v.numCols → r < v.numRows →
-      (v.updCells buf f)[v.pos c r]? = (match f (c, r) with | some x => some x | none => buf[v.pos c r]?)) := by
-  sorry
+      (v.updCells buf f)[v.pos c r]? = (match f (c, r) with | some x => some x | none => buf[v.pos c r]?)) :=
+  ⟨VW.updCells_length v buf f, fun _ hp => VW.updCells_of_none buf f hp,
+    fun _ _ hc hr => VW.updCells_pos buf h f hc hr⟩
 
 /-- two position maps that agree on the buffer give the same result -/
 theorem C04_gather_congr (buf : List α) (f g : Nat → Nat) (hfg : ∀ p, p < buf.length → f p = g p) :
-    gather buf f = gather buf g := by
-  sorry
+    gather buf f = gather buf g :=
+  gather_congr buf f g hfg
 
 /-- the identity permutation changes nothing -/
-theorem C04_gather_id (v : VW) (buf : List α) : gather buf (v.mapCells id) = buf := by
-  sorry
+theorem C04_gather_id (v : VW) (buf : List α) : gather buf (v.mapCells id) = buf :=
+  gather_eq_self buf _ (fun p _ => VW.mapCells_eq_self id (fun _ _ _ _ => rfl) p)
 
 /-- what mutable iteration hands out are cells of the view: every position yielded by `rows_mut()`, `col_mut(c)`,
     `cells_mut()` on a view is a cell of that view (so writes through them stay inside) -/
 theorem C04_iter_positions (v : VW) (n : Nat) (h : v.Inv n) :
     (∀ r, r < v.numRows → ∀ p ∈ (v.rowWin r).positions, ∃ c, c < v.numCols ∧ p = v.pos c r) ∧
     (∀ c r, c < v.numCols → r < v.numRows → v.coord? (v.pos c r) ≠ none) := by
-  sorry
+  constructor
+  · intro r _ p hp
+    simp only [Win.positions, VW.rowWin, List.mem_map, List.mem_range] at hp
+    obtain ⟨c, hc, rfl⟩ := hp
+    exact ⟨c, hc, VW.pos_zero_add v c r⟩
+  · intro c r hc hr
+    rw [VW.coord?_pos h hc hr]; simp
 
 end Toodee
